@@ -66,6 +66,8 @@ var wanted = map[string][]string{
 func init() {
 	regE("C01", "chips conserved", 3000)
 	regE("C02", "showdown pays the right players", 4000)
+	props["C02"].World = func() sim.World { return engine.Mixed{} }
+	props["C02"].WorldName = "E+P"
 	regE("C04", "only the player to act can act", 2500)
 	regE("C05", "betting round closes exactly when it should", 3000)
 	regE("C06", "hand always says what comes next and finishes", 3000)
@@ -77,6 +79,8 @@ func init() {
 	regE("C14", "cards dealt without loss or duplication", 3000)
 	regE("C15", "views do not leak", 1500)
 	regE("C16", "published pots partition the chips", 4000)
+	props["C16"].World = func() sim.World { return engine.Mixed{} }
+	props["C16"].WorldName = "E+P"
 	registerOther()
 	for id, w := range wanted {
 		if props[id] != nil {
@@ -433,13 +437,7 @@ func cmdReplay(args []string) int {
 		fmt.Fprintln(os.Stderr, "HARNESS-FAULT:", err)
 		return 2
 	}
-	var w sim.World
-	for _, s := range props {
-		if s.WorldName == c.World {
-			w = s.World()
-			break
-		}
-	}
+	w := worldOf(c.World)
 	if w == nil {
 		fmt.Fprintln(os.Stderr, "HARNESS-FAULT: unknown world", c.World)
 		return 2
@@ -539,6 +537,9 @@ func lastLine(s string) string {
 }
 
 func worldOf(name string) sim.World {
+	if name == "P" || name == "E" {
+		return engine.Mixed{}
+	}
 	for _, s := range props {
 		if s.WorldName == name {
 			return s.World()
